@@ -42,6 +42,24 @@ def rule_drain(ctx):
     ctx.rule(R, "the per-definition report cache is drained after the call that may fill it (CFG generation), and what was drained is what is written; every pass result is appended to that collection; the cache takes every report it is handed")
     rule_cache_append(ctx, R)
     rule_no_narrowing(ctx, R)
+    # a definition is lifted - and its lifting reports are produced - at most once: not again when its graph is cached,
+    # and not again when an earlier attempt failed (its reports are cached then; every further reference by another
+    # definition would otherwise display the same error once more)
+    for kind in ("template", "function"):
+        cf = find_fn(RUN, "cache_" + kind)
+        if cf is None:
+            ctx.missing(R, "AnalysisRunner::cache_" + kind)
+            continue
+        gens = list(calls(cf["body"], "generate_cfg"))
+        okg = len(gens) == 1
+        det = "%d calls of generate_cfg" % len(gens)
+        if okg:
+            cs = [c.replace(" ", "") for c in facts_str(conditions_to(cf["body"], gens[0]) or [])]
+            pv_ = sgrep.params(cf)
+            nm_ = pv_[0] if pv_ else "name"
+            okg = ("!self.%s_cfgs.contains_key(%s)" % (kind, nm_)) in cs and ("!self.%s_reports.contains_key(%s)" % (kind, nm_)) in cs
+            det = "generate_cfg is reached under %s" % cs
+        ctx.check(R, "AnalysisRunner::cache_%s/lifted-at-most-once" % kind, okg, det, site(RUN, cf))
     for kind in ("template", "function"):
         fn = find_fn(RUN, "analyze_" + kind)
         if fn is None:
@@ -333,6 +351,22 @@ def rule_exit_status(ctx, R="C03.2"):
             want_text = {0: "No issues found.", 1: "1 issue found."}.get(n, "%d issues found." % n)
             ctx.check(R, "main/exit[displayed=%d]" % n, code == want_code, "exit status %s, expected %s (from what was displayed on stdout) %s" % (code, want_code, why), site(MAIN, fn))
             ctx.check(R, "main/summary[displayed=%d]" % n, summ == [want_text], "summary %s, expected [%r] %s" % (summ, want_text, why), site(MAIN, fn))
+        # no other way out: once the inputs are being read, main ends in the summary above - an early `return`, an exit
+        # code other than SUCCESS / FAILURE or a process::exit elsewhere ends the run without the summary line
+        last_nodes = {id(y) for y in walk(body[-1])} if body else set()
+        for x in walk(fn["body"]):
+            if id(x) in last_nodes:
+                continue
+            bad_exit = None
+            if x["k"] == "Return":
+                cs = facts_str(conditions_to(fn["body"], x) or [])
+                if not any("input_files.is_empty()" in c and not c.lstrip("(").startswith("!") for c in cs):
+                    bad_exit = "`%s` under %s" % (render(x)[:60], cs)
+            elif x["k"] == "Call" and x["func"]["k"] == "Path" and (x["func"]["path"].endswith("ExitCode::from") or x["func"]["path"].endswith("process::exit") or x["func"]["path"].endswith("process::abort") or x["func"]["path"] in ("exit", "abort")):
+                bad_exit = "`%s`" % render(x)[:60]
+            if bad_exit:
+                ctx.bad(R, "main/no-exit-without-the-summary", "%s leaves main without printing the summary line (or with a status other than 0 / 1)" % bad_exit, site(MAIN, x))
+        ctx.check(R, "main/exits-inspected", True, "every return / exit call of main outside the help path and the final summary was looked at")
         # other SUCCESS exits: only the help path
         tail_nodes = {id(x) for st in body[first[0]:] for x in walk(st)}
         others = [x for x in walk(fn["body"]) if x["k"] == "Path" and x["path"] == "ExitCode::SUCCESS" and id(x) not in tail_nodes]
